@@ -319,6 +319,35 @@ def shape_variant_queries(propset, root, T, variants=None, scalars=("T", "S1"), 
     return qs[:limit] if limit else qs
 
 
+def sibling_nodes():
+    """[X, Y, T] and {a:X, b:Y, c:T} for all pairs of small containers X, Y: state left behind by skipping / raw-extracting /
+    entering X must not disturb the handling of the container sibling Y"""
+    from .shapes import Node
+
+    def small():
+        return [Node("O", [], []), Node("A", [], []), Node("O", [Node("T")], [0]), Node("A", [Node("T")], [])]
+    out = []
+    for x in small():
+        for y in small():
+            out.append((2, Node("A", [x, y, Node("T")], [])))
+            out.append((1, Node("O", [x, y, Node("T")], [0, 1, 2])))
+    for x in small():
+        for y in small():
+            out.append((2, Node("A", [x, Node("T"), y], [])))
+    return out
+
+
+def sibling_queries(propset, variants):
+    from . import shapes
+    qs = []
+    for root, node in sibling_nodes():
+        first = node.children[0]
+        plans_ = {"skip": {id(first): "skip"}, "raw": {id(first): "raw"}, "tw": {id(first): "tw"}, "full": {}}
+        for v in variants:
+            qs.append(shape_script_query(propset, node, shapes.full_script(node, plan=plans_[v]), "sib-" + v, root))
+    return _sparse_witness(qs, 8)
+
+
 def chain_queries(propset, tier, variants=None):
     from . import shapes
     qs = []
@@ -372,10 +401,12 @@ def plan_C06(tier):
     if tier == "quick":
         qs += shape_variant_queries(6, 1, 6, witness_every=3) + shape_variant_queries(6, 2, 5, witness_every=3)
         qs += chain_queries(6, tier, variants=("full", "skip", "raw"))
+        qs += sibling_queries(6, ("skip", "raw"))
         cfg = [(3, 5, 5, (2,)), (3, 6, 5, (1,))]
     else:
         qs += shape_variant_queries(6, 1, 8, witness_every=8) + shape_variant_queries(6, 2, 7, witness_every=8)
         qs += chain_queries(6, tier)
+        qs += sibling_queries(6, ("skip", "raw", "full"))
         # deep structure with a single scalar kind: every tree up to 10 tokens, nesting up to 4
         qs += shape_variant_queries(6, 2, 10, variants=("full", "skip", "raw"), scalars=("T",), max_nest=4, witness_every=16)
         qs += shape_variant_queries(6, 1, 10, variants=("full", "skip", "raw"), scalars=("T",), max_nest=4, witness_every=16)
@@ -563,6 +594,21 @@ def payload_queries(prop, tier):
                            "symbolic": "all payload bytes, unconstrained (valid and invalid documents)"})
             q.group = "h_script.payload"
             qs.append(q)
+    # lookups over possibly unordered / duplicate names (both names and the searched names symbolic)
+    dup = Node("O", [Node("T"), Node("T")], [1, 1])
+    b, m = shapes.skeleton(dup)
+    for s in ([["GO", "F", "F", "LO"], ["GO", "N", "F", "LO"]] if tier == "quick" else
+              [["GO", "F", "F", "LO"], ["GO", "N", "F", "LO"], ["GO", "F", "N", "LO"], ["GO", "F", "LO"], ["GO", "N", "F", "N", "LO"]]):
+        q = script_query(prop, s, len(b), 2, 1, mode=2, J=None, timeout=1500,
+                         extra={"SK_LEN": len(b), "SK_BYTES": ",".join(str(x) for x in b), "SK_MASK": ",".join(str(x) for x in m)})
+        q.name = "payload.p%d.%s.lookup.%s" % (prop, dup.label(), "-".join(s))
+        q.array_fs = True
+        q.mem_gb = 6
+        q.unwindset["binson_parser_field_with_length.0"] = 4
+        q.unwindset["_advance_parsing.0"] = 6
+        q.tags.update({"shape": dup.label(), "family": "H-PAYLOAD", "variant": "lookup"})
+        q.group = "h_script.payload"
+        qs.append(q)
     return qs
 
 
@@ -639,6 +685,7 @@ def plan_C11(tier):
                 s = shapes.full_script(node, plan={id(c): "tw"})
                 qs.append(shape_script_query(11, node, s, "tw", root))
         # raw on a non-container: false and nothing changes
+    qs += sibling_queries(11, ("raw", "tw"))
     from .shapes import Node
     for root, node in [(2, Node("A", [Node("T"), Node("A", [], [])], [])), (1, Node("O", [Node("T"), Node("O", [], [])], [0, 1]))]:
         first = "GA" if root == 2 else "GO"
@@ -906,7 +953,7 @@ def plan_C09(tier):
     api = []
     for root, node in ([(2, Node("A", [Node("T"), Node("T")], [])), (1, Node("O", [Node("T")], [1])), (2, Node("A", [Node("A", [Node("T")], []), Node("T")], [])),
                         (1, Node("O", [Node("O", [Node("T")], [0]), Node("T")], [0, 1]))] +
-                       ([] if tier == "quick" else [(2, n) for n in shapes.gen_shapes(2, 5, ("T", "S1"), 3)] + [(1, n) for n in shapes.gen_shapes(1, 6, ("T", "S1"), 3)])):
+                       ([] if tier == "quick" else [(2, n) for n in shapes.gen_shapes(2, 4, ("T", "S1"), 3)] + [(1, n) for n in shapes.gen_shapes(1, 4, ("T", "S1"), 3)])):
         b, m = shapes.skeleton(node)
         full = shapes.full_script(node)
         s = full + ["N", "GA" if root == 2 else "GO"]
@@ -1163,13 +1210,51 @@ def plan_C18(tier):
     return qs, info
 
 
+def deep_array_query(k, sym_inner=True, timeout=2400):
+    """k nested arrays (array root counts as one) around one symbolic byte: the 255 / 256 boundary of the array counter"""
+    b = [0x42] * k + ([0] if sym_inner else []) + [0x43] * k
+    m = [1] * k + ([0] if sym_inner else []) + [1] * k
+    n = len(b)
+    q = doc_query("C02", 1, n, 1, 2, timeout=timeout)
+    q.defines.update({"SK_LEN": n, "SK_BYTES": ",".join(str(x) for x in b), "SK_MASK": ",".join(str(x) for x in m), "WIT_VALID": 1 if k <= 255 else 0})
+    q.name = "deeparray.k%d%s" % (k, ".inner-symbolic" if sym_inner else "")
+    q.array_fs = True
+    q.extra_flags += ["--max-field-sensitivity-array-size", str(n + 8)]
+    q.unwind = n + 8
+    q.unwindset = {"_advance_parsing.0": n + 2, "_parse_integer.0": 9, "memcmp.0": 4}
+    q.mem_gb = 6
+    q.tags.update({"family": "H-DEEP", "what": "%d nested arrays, innermost byte %s" % (k, "symbolic" if sym_inner else "absent")})
+    q.group = "h_doc.deep"
+    return q
+
+
+def deep_unbalanced_query(k, timeout=2400):
+    """k opening arrays followed by ONE closing array: unbalanced, the 8-bit counter must not wrap"""
+    b = [0x42] * k + [0x43]
+    n = len(b)
+    q = doc_query("C02", 1, n, 1, 2, timeout=timeout)
+    q.defines.update({"SK_LEN": n, "SK_BYTES": ",".join(str(x) for x in b), "SK_MASK": ",".join(["1"] * n), "WIT_VALID": 0})
+    q.name = "deeparray.unbalanced.k%d" % k
+    q.array_fs = True
+    q.extra_flags += ["--max-field-sensitivity-array-size", str(n + 8)]
+    q.unwind = n + 8
+    q.unwindset = {"_advance_parsing.0": n + 2, "_parse_integer.0": 9, "memcmp.0": 4}
+    q.mem_gb = 6
+    q.tags.update({"family": "H-DEEP", "what": "%d opening arrays and one closing array" % k})
+    q.group = "h_doc.deep"
+    return q
+
+
 def plan_C01_full(tier):
     qs, info = plan_C01(tier)
     # API-only: arbitrary bytes, every op executed unconditionally, all memory checks, from a garbage struct through init
-    scripts = [(["GO", "N", "LA"], 4, 1), (["GA", "N", "LO"], 4, 2), (["N", "LO"], 3, 1), (["GO", "RAW", "N"], 4, 1)] if tier == "quick" else \
+    scripts = [(["GO", "N", "LA"], 4, 1), (["GA", "N", "LO"], 4, 2), (["N", "LO"], 3, 1), (["GO", "RAW", "N"], 4, 1),
+               (["GO", "N", "F"], 6, 1), (["GO", "N", "N", "FS"], 6, 1)] if tier == "quick" else \
               [(["GO", "N", "LA"], 6, 1), (["GA", "N", "LO"], 6, 2), (["N", "N", "LO"], 5, 1), (["GO", "RAW", "N"], 5, 1), (["GA", "GO", "N", "LA"], 5, 2),
                (["GO", "N", "GO", "N"], 7, 1), (["GA", "N", "GA", "LA", "N"], 6, 2), (["GO", "F", "N", "LO"], 6, 1), (["LA", "N"], 4, 2), (["GO", "N", "RAW", "LO"], 6, 1),
-               (["GO", "GO", "GO"], 6, 1), (["GA", "N", "RAW", "RAW"], 5, 2)]
+               (["GO", "GO", "GO"], 6, 1), (["GA", "N", "RAW", "RAW"], 5, 2), (["GO", "N", "F"], 7, 1), (["GO", "N", "N", "FS"], 7, 1),
+               (["GO", "N", "GO", "N", "F"], 8, 1), (["GO", "F", "F", "F"], 7, 1), (["GO", "N", "RAW", "F"], 7, 1), (["GO", "N", "TW"], 6, 1),
+               (["GA", "N", "N", "N", "N"], 6, 2), (["GO", "N", "LO", "N", "F"], 6, 1)]
     for s, n, root in scripts:
         for D in ((1, 2) if tier != "quick" else (1,)):
             q = script_query(1, s, n, D, root, mode=3, J=None, checks="mem", timeout=3000)
@@ -1222,6 +1307,10 @@ def plan_C02_full(tier):
         qs.append(q)
     qs.append(leaf_query("parse_integer"))
     qs += [biglen_query(1), biglen_query(2)]
+    # the array nesting limit through verify itself: 255 nested arrays accepted, 256 => MAX_DEPTH_ARRAY (structure concrete)
+    qs += [deep_array_query(255, sym_inner=False), deep_array_query(256, sym_inner=False)]
+    if tier != "quick":
+        qs += [deep_array_query(254, sym_inner=False), deep_array_query(257, sym_inner=False), deep_unbalanced_query(257)]
     if tier != "quick":
         # D = 10 (the default depth) on small buffers
         for n in (4, 6):
